@@ -160,17 +160,17 @@ func runWF(c WFCase, o *lib.Obs) error {
 	return nil
 }
 
-var killSyscalls = []string{"renameat", "renameat2", "setxattr", "lsetxattr", "fsetxattr", "unlinkat", "linkat", "symlinkat", "mkdirat", "openat", "write", "fchmodat", "rename"}
+var killSyscalls = []string{"renameat", "renameat", "renameat", "renameat2", "renameat2", "renameat", "renameat2", "setxattr", "lsetxattr", "fsetxattr", "unlinkat", "linkat", "symlinkat", "mkdirat", "openat", "write", "fchmodat", "rename"}
 
 func genKill(t *rapid.T) Kill {
-	if rapid.IntRange(0, 2).Draw(t, "mode") == 0 {
+	if rapid.IntRange(0, 1).Draw(t, "mode") == 0 {
 		return Kill{Mode: "syscall", Syscall: rapid.SampledFrom(killSyscalls).Draw(t, "syscall"), When: rapid.SampledFrom([]int{1, 1, 2, 2, 3, 4, 5, 6, 8, 12, 20, 40}).Draw(t, "when")}
 	}
 	return Kill{Mode: "time", After: rapid.IntRange(0, 6).Draw(t, "after"), DelayMs: rapid.IntRange(0, 150).Draw(t, "delay")}
 }
 
 func gen(t *rapid.T) Case {
-	o := lib.RepoGenOpts{MinTargets: 5, MaxTargets: 10, MaxSleepMs: 100}
+	o := lib.RepoGenOpts{MinTargets: 5, MaxTargets: 10, MaxSleepMs: 100, OptOuts: true}
 	a := lib.GenRepo(t, o)
 	for _, tg := range a.Targets {
 		if tg.Kind == "genrule" {
@@ -233,7 +233,11 @@ func crashBuild(e *lib.E2E, k Kill, req []string) (killed bool, started int, err
 	defer cancel()
 	var cmd *exec.Cmd
 	if k.Mode == "syscall" {
-		full := append([]string{"-f", "-qq", "-o", "/dev/null", "-e", "trace=" + k.Syscall, "-e", fmt.Sprintf("inject=%s:signal=KILL:when=%d", k.Syscall, k.When), lib.PlzBin()}, args...)
+		// -b execve: strace detaches from a child as soon as it execs, so only plz itself (all its threads) is
+		// subject to the injected kill. Without it a kill could hit a tool inside a build action (ln, cat, find);
+		// plz does not run commands with `set -e`, so such an action would "succeed" with incomplete outputs -
+		// which is a property of the generated command, not of plz's crash recovery.
+		full := append([]string{"-f", "-b", "execve", "-qq", "-o", "/dev/null", "-e", "trace=" + k.Syscall, "-e", fmt.Sprintf("inject=%s:signal=KILL:when=%d", k.Syscall, k.When), lib.PlzBin()}, args...)
 		cmd = p.Cmd(ctx, args...)
 		cmd.Path, _ = exec.LookPath("strace")
 		cmd.Args = append([]string{"strace"}, full...)
